@@ -89,12 +89,16 @@ def check_construction(case):
     oob = case.get("oob")
     if oob is not None:
         bad = tuple(oob)
-        dense_level = modes[list(ordering).index(case["oob_axis"])] == "d" if order else False
+        # the coordinate may be out of range on several axes (e.g. a zero-sized dimension makes every value out
+        # of range); it is an instance of F-F when at least one of them is stored in a dense level
+        bad_axes = [a for a in range(order) if not (0 <= bad[a] < dims[a])]
+        dense_level = any(modes[list(ordering).index(a)] == "d" for a in bad_axes)
         try:
             build(ctor if ctor != "lol" else "aos", coords + [bad], vals + [1.0], dims, fmt)
         except Exception:  # noqa: BLE001 - any rejection is what the property asks for
             return [], {"oob": "rejected"}
-        return [fail("out-of-range-coordinate-accepted", f"{d} + out-of-range {bad}: no error, entry dropped or stored",
+        lvl = "dense-level" if dense_level else "compressed-level"
+        return [fail(f"out-of-range-coordinate-accepted:{lvl}", f"{d} + out-of-range {bad}: no error, entry dropped or stored",
                      dense_level=dense_level, oob=list(bad))], {"oob": "accepted"}
     try:
         t = build(ctor, coords, vals, dims, fmt)
@@ -256,26 +260,100 @@ def constructions(draw, tier):
         m2 = tuple(draw(st.sampled_from("ds")) for _ in range(order))
         o2 = tuple(draw(st.permutations(range(order))))
         case["to_format"] = C.fmt_text(m2, o2)
-    elif r < 6 and order > 0:
-        axis = draw(st.integers(0, order - 1))
-        base = list(all_c[0]) if all_c else [0] * order
-        base[axis] = draw(st.sampled_from([dims[axis], dims[axis] + 1, -1]))
-        case["oob"] = base
-        case["oob_axis"] = axis
-        if ctor == "lol":
-            case["ctor"] = "aos"
     return case
 
 
-def check_generated(case, ctx=None):
-    return run_case(case)
+def oob_variants(case):
+    """Every axis x {dim, dim+1, -1}: exactly one coordinate outside the dimensions (fault enumeration)."""
+    dims = case["dims"]
+    order = len(dims)
+    base = list(case["coords"][0]) if case["coords"] else [0] * order
+    for axis in range(order):
+        for bad in (dims[axis], dims[axis] + 1, -1):
+            c = {k: v for k, v in case.items() if k != "to_format"}
+            b = list(base)
+            b[axis] = bad
+            c["oob"] = b
+            c["oob_axis"] = axis
+            if c["ctor"] == "lol":
+                c["ctor"] = "aos"
+            yield c
 
 
-STREAMS = {"generated": {"strategy": constructions, "check": check_generated}}
+def generated_task(task):
+    from ..native.pool import Worker
+    from ..runner import generate_cases
+
+    tier, seed, shard, n = task
+    stats = Stats()
+    w = Worker(module="harness.native.worker2")
+    pending = []
+    try:
+        for k, case in enumerate(generate_cases(constructions(tier), n, seed * 9103 + shard)):
+            stats.add(case, run_case(case))
+            if len(case["dims"]) > 0 and k % 2 == 0:
+                for v in oob_variants(case):
+                    stats.add(v, run_case(v))
+            if k % 3 == 0:
+                pending.append(case)
+            if len(pending) >= 40:
+                temp_iterator_batch(pending, stats, w)
+                pending = []
+        if pending:
+            temp_iterator_batch(pending, stats, w)
+    finally:
+        w.close()
+    return stats
+
+
+def temp_iterator_batch(cases_, stats, w):
+    """items() obtained from a temporary tensor, drained only after the tensor is gone and the allocator has been
+    stirred - in a disposable worker, because a use-after-free may kill the process."""
+    rep = w.call({"op": "items_of_temporary", "cases": cases_}, timeout=300)
+    if "crash" in rep:
+        for c in cases_:
+            r1 = w.call({"op": "items_of_temporary", "cases": [c]}, timeout=120)
+            judge_temp(c, r1["results"][0] if "results" in r1 else {"crash": r1.get("crash")}, stats)
+        return
+    if "error" in rep:
+        raise bridge.HarnessError(rep["error"] + rep.get("trace", ""))
+    for c, r in zip(cases_, rep["results"]):
+        judge_temp(c, r, stats)
+
+
+def judge_temp(case, r, stats):
+    d = f"{case['ctor']} fmt={case['fmt']} dims={tuple(case['dims'])} coords={case['coords'][:5]}"
+    case = dict(case, variant="items_of_temporary")
+    fails = []
+    if "crash" in r:
+        fails.append(fail("items-of-temporary-crashes", f"{d}: {r['crash']}"))
+    elif "raised" in r:
+        fails.append(fail("items-of-temporary-raises", f"{d}: {r['raised']}"))
+    elif "skipped" not in r:
+        got = {tuple(c): v for c, v in r["items"]}
+        want = {tuple(c): v for c, v in r["stored_while_alive"]}
+        if got != want or len(r["items"]) != len(want):
+            fails.append(fail("items-of-temporary-wrong", f"{d}: drained after the tensor was dropped: {sorted(got.items())[:4]} "
+                              f"vs while alive {sorted(want.items())[:4]}"))
+    stats.add(case, result(fails, {"variant:items_of_temporary"}, False, None, None, {"temporary_iterators": 1}))
+
+
+STREAMS = {}
 
 
 def replay(payload):
-    return check_construction(payload["case"])[0]
+    case = payload["case"]
+    if case.get("variant") == "items_of_temporary":
+        from ..native.pool import Worker
+
+        st_ = Stats()
+        w = Worker(module="harness.native.worker2")
+        try:
+            temp_iterator_batch([{k: v for k, v in case.items() if k != "variant"}], st_, w)
+        finally:
+            w.close()
+        return [{"bucket": b, "detail": ex[1], "info": ex[2]} for b, v in st_.buckets.items() for ex in v["examples"]]
+    return check_construction(case)[0]
 
 
 def candidates(case):
@@ -320,5 +398,6 @@ def run(chk):
     chk.coverage_extra["exhaustive_subdomain"] = (
         f"all formats of order 0-3 x all dims in {{0..3}}^n with product <= {max_cells} x all coordinate subsets"
     )
-    chk.absorb(run_stream(__name__, "generated", chk.tier, chk.seed, 4800 if quick else 200000), shrink=shrink_case,
+    n = 2400 if quick else 100000
+    chk.absorb(run_tasks(generated_task, [(chk.tier, chk.seed, s_, n // 16) for s_ in range(16)]), shrink=shrink_case,
                kind="construction")
